@@ -52,7 +52,9 @@ def name_ok(p: bytes):
 def build_spec(p: bytes):
     """One world with the payload in every content-derived echo position."""
     spec = {
-        "title": {"page.html": b"<html><head><title>" + p + b"</title></head><body>x</body></html>\n"},
+        "title": {"page.html": b"<html><head><title>" + p + b"</title></head><body>x</body></html>\n",
+                  # the same payload spelled as numeric character references
+                  "ncr.html": b"<html><head><title>T " + b"".join(b"&#%d;" % c for c in p) + b" end</title></head><body>x</body></html>\n"},
         "mail": {"box.mbox": b"From a@b Thu Jan  1 00:00:01 2004\nFrom: a@b\nSubject: " + p + b"\n\nbody\n\nFrom c@d Thu Jan  1 00:00:02 2004\nSubject: plain\n\nb2\n"},
         "abs": {"f.txt": b"f\n", "f.txt.abstract": p + b"\n", ".abstract": b"dir " + p + b"\n"},
         "links": {"f.txt": b"f\n",
@@ -65,7 +67,9 @@ def build_spec(p: bytes):
                             b"0Sel\t/s" + p.replace(b"\n", b"").replace(b"\r", b"") + b"\n"
                             b"1Host\t/x\th" + p.replace(b"\n", b"").replace(b"\r", b"") + b"\t70\n"
                             b"hUrl\tURL:http://u/" + p.replace(b"\n", b"").replace(b"\r", b"") + b"\n"
-                            b"7Srch\t/q" + p.replace(b"\n", b"").replace(b"\r", b"") + b"\n",
+                            b"7Srch\t/q" + p.replace(b"\n", b"").replace(b"\r", b"") + b"\n"
+                            b"7RemoteSearch\t/s\th" + p.replace(b"\n", b"").replace(b"\r", b"") + b"\t70\n"
+                            b"7UrlSearch\tURL:http://u/" + p.replace(b"\n", b"").replace(b"\r", b"") + b"\n",
                "f.txt": b"f\n"},
         "clean": {"c.txt": b"no payload here\n", "sub": {}},
         "waptext": {"t.txt": b"line " + p + b" end\n" + p + b"\n"},
@@ -108,6 +112,12 @@ def requests(p: bytes):
     out.append(("plus", "gopherp", b"/plus/g.txt\t!\r\n"))
     out.append(("abs", "gopherp", b"/abs\t$\r\n"))
     out.append(("abs", "gopherp", b"/abs/f.txt\t!\r\n"))
+    out.append(("title", "gopherp", b"/title\t$\r\n"))
+    out.append(("title", "gopherp", b"/title/page.html\t!\r\n"))
+    out.append(("title", "gopherp", b"/title/ncr.html\t!\r\n"))
+    out.append(("mail/box.mbox", "gopherp", b"/mail/box.mbox\t$\r\n"))
+    out.append(("links", "gopherp", b"/links\t$\r\n"))
+    out.append(("gm", "gopherp", b"/gm\t$\r\n"))
     return out
 
 
